@@ -7,6 +7,8 @@
 name: str_append_char.empty
 define: VP=str, U_APPEND_CHAR, U_EMPTY
 src: str.c, obj.c
+native: str
+native_includes: str.c
 enforce: spif_str_append_char
 backend: sat,z3
 timeout: 200
@@ -16,6 +18,8 @@ flags: --slice-formula
 name: str_append_char.nonempty
 define: VP=str, U_APPEND_CHAR, U_NONEMPTY
 src: str.c, obj.c
+native: str
+native_includes: str.c
 enforce: spif_str_append_char
 backend: sat,z3
 timeout: 200
@@ -25,6 +29,8 @@ flags: --slice-formula
 name: str_append_from_ptr.empty
 define: VP=str, U_APPEND_FROM_PTR, U_EMPTY
 src: str.c, obj.c
+native: str
+native_includes: str.c
 enforce: spif_str_append_from_ptr
 backend: sat,z3
 timeout: 200
@@ -34,6 +40,8 @@ flags: --slice-formula
 name: str_append_from_ptr.nonempty
 define: VP=str, U_APPEND_FROM_PTR, U_NONEMPTY
 src: str.c, obj.c
+native: str
+native_includes: str.c
 enforce: spif_str_append_from_ptr
 backend: sat,z3
 timeout: 200
@@ -43,6 +51,8 @@ flags: --slice-formula
 name: str_append.empty
 define: VP=str, U_APPEND, U_EMPTY
 src: str.c, obj.c
+native: str
+native_includes: str.c
 enforce: spif_str_append
 backend: sat,z3
 timeout: 200
@@ -52,6 +62,8 @@ flags: --slice-formula
 name: str_append.nonempty
 define: VP=str, U_APPEND, U_NONEMPTY
 src: str.c, obj.c
+native: str
+native_includes: str.c
 enforce: spif_str_append
 backend: sat,z3
 timeout: 200
@@ -61,6 +73,8 @@ flags: --slice-formula
 name: ustr_append_char.empty
 define: VP=ustr, U_APPEND_CHAR, U_EMPTY
 src: ustr.c, obj.c
+native: str
+native_includes: ustr.c
 enforce: spif_ustr_append_char
 backend: sat,z3
 timeout: 200
@@ -70,6 +84,8 @@ flags: --slice-formula
 name: ustr_append_char.nonempty
 define: VP=ustr, U_APPEND_CHAR, U_NONEMPTY
 src: ustr.c, obj.c
+native: str
+native_includes: ustr.c
 enforce: spif_ustr_append_char
 backend: sat,z3
 timeout: 200
@@ -79,6 +95,8 @@ flags: --slice-formula
 name: ustr_append_from_ptr.empty
 define: VP=ustr, U_APPEND_FROM_PTR, U_EMPTY
 src: ustr.c, obj.c
+native: str
+native_includes: ustr.c
 enforce: spif_ustr_append_from_ptr
 backend: sat,z3
 timeout: 200
@@ -88,6 +106,8 @@ flags: --slice-formula
 name: ustr_append_from_ptr.nonempty
 define: VP=ustr, U_APPEND_FROM_PTR, U_NONEMPTY
 src: ustr.c, obj.c
+native: str
+native_includes: ustr.c
 enforce: spif_ustr_append_from_ptr
 backend: sat,z3
 timeout: 200
@@ -97,6 +117,8 @@ flags: --slice-formula
 name: ustr_append.empty
 define: VP=ustr, U_APPEND, U_EMPTY
 src: ustr.c, obj.c
+native: str
+native_includes: ustr.c
 enforce: spif_ustr_append
 backend: sat,z3
 timeout: 200
@@ -106,6 +128,8 @@ flags: --slice-formula
 name: ustr_append.nonempty
 define: VP=ustr, U_APPEND, U_NONEMPTY
 src: ustr.c, obj.c
+native: str
+native_includes: ustr.c
 enforce: spif_ustr_append
 backend: sat,z3
 timeout: 200
